@@ -2,6 +2,7 @@ import Driver.Proto
 import PdtVerif.Model.StringMatch
 import PdtVerif.Model.StringMatchBatch
 import PdtVerif.Model.StringMatchOracle
+import PdtVerif.Model.StringMatchModule
 /-! Driver for C01: runs the per-column model of `_string_matching` on every column of a batch
 and evaluates the declarative oracle (`lev` on the cut sequences) next to it.
 
@@ -27,6 +28,43 @@ def oraclePrefixes (c : Costs) (r h : List Int) : List Rat :=
   if r.length + h.length ≤ levLimit then (List.range (h.length + 1)).map (fun k => lev c r (h.take k))
   else prefixDists c r h
 
+/-- The history of a module object as the harness played it (`case["life"]["init"]`: the attributes that were
+CONSTRUCTED with another value and reassigned to the case's option cell before the observed call), run on
+the module model (`Model/StringMatchModule.lean`): construct with the initial values, apply the assignments,
+return the object. `cell` is the object a fresh construction with the case's option cell gives. -/
+def replayLife (cell : SMModule Int) (life : Json) : Except String (SMModule Int) := do
+  let init ← field life "init"
+  let has := fun (k : String) => (fieldOpt init k).isSome
+  -- (1) construction: the cell's values except where `init` names another one
+  let m0 : SMModule Int := {
+    eos := ← (if has "eos" then getOptInt init "eos" else pure cell.eos)
+    includeEos := ← (if has "include_eos" then getBool init "include_eos" else pure cell.includeEos)
+    norm := ← (if has "norm" then getBool init "norm" else pure cell.norm)
+    batchFirst := ← (if has "batch_first" then getBool init "batch_first" else pure cell.batchFirst)
+    insCost := ← (if has "ins_cost" then getRat init "ins_cost" else pure cell.insCost)
+    delCost := ← (if has "del_cost" then getRat init "del_cost" else pure cell.delCost)
+    subCost := ← (if has "sub_cost" then getRat init "sub_cost" else pure cell.subCost)
+    padding := ← (if has "padding" then getInt init "padding" else pure cell.padding)
+    excludeLast := ← (if has "exclude_last" then getBool init "exclude_last" else pure cell.excludeLast)
+    warn := ← (if has "warn" then getBool init "warn" else pure cell.warn) }
+  -- (2) the reassignments `module.attr = <value of the cell>`
+  let assigns : List (Assign Int) :=
+    (if has "warn" then [Assign.warn cell.warn] else [])
+    ++ (if has "exclude_last" then [Assign.excludeLast cell.excludeLast] else [])
+    ++ (if has "padding" then [Assign.padding cell.padding] else [])
+    ++ (if has "sub_cost" then [Assign.subCost cell.subCost] else [])
+    ++ (if has "del_cost" then [Assign.delCost cell.delCost] else [])
+    ++ (if has "ins_cost" then [Assign.insCost cell.insCost] else [])
+    ++ (if has "batch_first" then [Assign.batchFirst cell.batchFirst] else [])
+    ++ (if has "norm" then [Assign.norm cell.norm] else [])
+    ++ (if has "include_eos" then [Assign.includeEos cell.includeEos] else [])
+    ++ (if has "eos" then [Assign.eos cell.eos] else [])
+  let m := m0.assignAll assigns
+  -- C01_module_current / C01_module_fresh: the re-tuned object is the freshly constructed one
+  if m != cell then throw "module model: the object after the reassignments differs from a fresh construction"
+  if m != m0.current assigns then throw "module model: assignAll differs from `current` (C01_module_current)"
+  pure m
+
 /-- case: {"cols": [{"ref": [..R ints..], "hyp": [..H ints..]} ..], "eos": int|null,
 "include_eos", "norm", "exclude_last": bool, "padding": int, "ins","del","sub": "n/d",
 "mode": "scalar"|"prefix", "R", "H": padded sizes, "batch_first": bool}.
@@ -34,6 +72,9 @@ Reply: {"shortcut": bool, "tensor": {"shape": [..], "vals": ["n/d"..] | [["n/d".
   in the layout of the call), "cols": [{"model": "n/d" | ["n/d"..],
   "spec": {"ref_cut": [..], "hyp_cut": [..], "lev": "n/d", "prefix_lev": ["n/d"..] (prefix mode),
            "oracle": "lev"|"dpDist"}} ..]}.
+Optional: "entry": "module", "warn": bool, "life": {"init": {attribute: construction-time value}}: the call goes
+through the MODULE model (`SMModule.forwardED` / `forwardPED` of the object after its history, `replayLife`);
+reply gets "module": true.
 Fails (machinery error) when the model's value differs from what the theorems say it is. -/
 def c01Core (whole : Bool) : Handler := fun j => do
   let withModel ← if whole then pure true else getBool j "with_model"
@@ -54,6 +95,13 @@ def c01Core (whole : Bool) : Handler := fun j => do
   let H ← getNat j "H"
   let bf ← getBool j "batch_first"
   let c : Costs := ⟨ins, del, sub⟩
+  -- module entry: the object (a record of its public attributes) after its history
+  let isModule := (fieldOpt j "entry").bind (fun e => e.getStr?.toOption) == some "module"
+  let warn := ((fieldOpt j "warn").bind (fun e => e.getBool?.toOption)).getD false
+  let cell : SMModule Int := ⟨eos, inc, norm, bf, ins, del, sub, padding, excl, warn⟩
+  let modl ← match fieldOpt j "life" with
+    | some life => if isModule then replayLife cell life else pure cell
+    | none => pure cell
   -- the tensors as the library receives them: (L, N), transposed to (N, L) under batch_first
   let refSeq : Tensor2 Int := Tensor2.ofCols R (cols.map (·.1)) 0
   let hypSeq : Tensor2 Int := Tensor2.ofCols H (cols.map (·.2)) 0
@@ -62,7 +110,7 @@ def c01Core (whole : Bool) : Handler := fun j => do
   let tensorJ ←
     if !whole then pure Json.null
     else if mode == "scalar" then
-      match editDistanceT c eos inc norm bf refT hypT 0 with
+      match (if isModule then modl.forwardED refT hypT 0 else editDistanceT c eos inc norm bf refT hypT 0) with
       | .error e => throw s!"tensor model raised {e} on an in-domain batch"
       | .ok out =>
         let perCol := cols.map (fun (rh : List Int × List Int) => editDistance c eos inc norm rh.1 rh.2)
@@ -70,7 +118,8 @@ def c01Core (whole : Bool) : Handler := fun j => do
           throw s!"tensor model {out.map ratToString} differs from the per-column model {perCol.map ratToString}"
         pure (objJ [("shape", listJ natJ [out.length]), ("vals", listJ ratToJson out)])
     else
-      match prefixEditDistancesT c eos inc norm bf excl padding refT hypT 0 with
+      match (if isModule then modl.forwardPED refT hypT 0
+             else prefixEditDistancesT c eos inc norm bf excl padding refT hypT 0) with
       | .error e => throw s!"tensor model raised {e} on an in-domain batch"
       | .ok T =>
         let perCol := cols.map (fun (rh : List Int × List Int) => prefixEditDistances c eos inc norm excl padding rh.1 rh.2)
@@ -116,7 +165,7 @@ def c01Core (whole : Bool) : Handler := fun j => do
         ("spec", objJ [("ref_cut", listJ intJ rc), ("hyp_cut", listJ intJ hc), ("lev", ratToJson d),
           ("prefix_lev", listJ ratToJson pl), ("oracle", strJ which)])]))
   pure (objJ [("shortcut", boolJ (c.ins == c.del && c.del == c.sub && decide (0 < c.sub))),
-    ("tensor", tensorJ), ("cols", Json.arr outs.toArray)])
+    ("tensor", tensorJ), ("module", boolJ isModule), ("cols", Json.arr outs.toArray)])
 
 /-- case: {"ref_shape": [a, b], "hyp_shape": [c, d], "batch_first": bool, "mode"}: does the tensor-level
 model raise on all-zero 2-D tensors of these shapes (`C01_batch_mismatch`: iff the batch sizes differ)?
